@@ -97,10 +97,21 @@ def run_builder(cfg, seed, states=None, multi=False, jitter=None, show=False, se
     b.show_progress = False
     b.store_kernel_states = True
     b.set_model(gs.DictInterface(log_prob))
+    given = states if (multi or states is not None) else init_state()
+    reuse = isinstance(seed, int) and seed % 2 == 1 and not multi
+    if reuse:
+        # the caller's own containers: a dict of NumPy buffers that it goes on using after handing them over.
+        # (Replicated path only: there the builder stacks per-chain copies when the values are set. With
+        # multiple_chains=True the builder keeps the caller's container as it is, so the harness leaves it alone.)
+        given = {k: np.array(v) for k, v in given.items()}
     if multi:
-        b.set_initial_values(states, multiple_chains=True)
+        b.set_initial_values(given, multiple_chains=True)
     else:
-        b.set_initial_values(states if states is not None else init_state())
+        b.set_initial_values(given)
+    if reuse:
+        for k in list(given):
+            given[k][...] = 99.0
+        given["a"] = np.asarray(-5.0, np.float32)
     for k in real_kernels(cfg):
         b.add_kernel(k)
     b.set_epochs(mk_epochs(cfg["spec"]))
